@@ -210,6 +210,9 @@ func (e *Engine) Exec(step int, cmd *Cmd) {
 	tw := cmd.clone()
 	tw.C = cmd.C + 1
 	tw.ID = -cmd.ID - 1000000 // distinct id space, stable under minimisation
+	if tw.Op == "Open" || tw.Op == "Resume" {
+		tw.Walk = cmd.Walk + 1000000
+	}
 	if e.Twin == "decompose" && cmd.Op == "BatchWrite" && !batchMalformed(cmd) {
 		firstOut := e.res.Steps[len(e.res.Steps)-1].Out
 		if firstOut.OK() {
@@ -326,6 +329,16 @@ func (e *Engine) exec1(step int, cmd *Cmd, twin bool) {
 			return
 		}
 		st.Note = desc
+		if strings.Contains(desc, "LastEvaluatedKey") || strings.Contains(desc, "ExclusiveStartKey") {
+			// the paginator's own continuation key was overwritten: the walk is abandoned
+			for _, s := range e.res.Steps {
+				if s.Cmd.ID == cmd.Ref && (s.Cmd.Op == "Open" || s.Cmd.Op == "Resume") {
+					if ws := e.walks[s.Cmd.Walk]; ws != nil {
+						ws.done = true
+					}
+				}
+			}
+		}
 		e.fault("poke-" + cmd.Dir)
 		e.logf("  poke %s", desc)
 		st.Out = Outcome{Class: "ok"}
